@@ -65,15 +65,37 @@ def run(scenario, timeout=60):
 def scenario_of(model, inputs, script, threads=0, config=None, opts_for=None):
     """model: dict; inputs: concrete dict; script: the Run.log entries."""
     steps = [{"op": "start", "mid": model["id"], "inputs": inputs}]
+    known = node_ids(model)
     for e in script:
         if "action" in e and e.get("action"):
-            steps.append({"op": "action", "kind": snake(e["action"]), "nid": e["target"], "occurrence": e.get("occurrence", 0),
-                          "options": e.get("options", {})})
+            st = {"op": "action", "kind": snake(e["action"]), "nid": e["target"], "occurrence": e.get("occurrence", 0), "options": e.get("options", {})}
         elif "answer" in e:
-            steps.append({"op": "action", "kind": "next", "nid": e["answer"], "occurrence": e.get("occurrence", 0), "options": e.get("options", {})})
+            st = {"op": "action", "kind": "next", "nid": e["answer"], "occurrence": e.get("occurrence", 0), "options": e.get("options", {})}
+        else:
+            continue
+        if e.get("dyn_index") is not None:
+            st["dyn_index"] = e["dyn_index"]
+        steps.append(st)
     cfg = {"keep_processes": True}
     cfg.update(config or {})
-    return {"config": cfg, "threads": threads, "models": [model], "steps": steps}
+    return {"config": cfg, "threads": threads, "models": [model], "steps": steps, "known_nids": sorted(known)}
+
+
+def node_ids(model):
+    out = set()
+
+    def walk(n):
+        if n.get("id"):
+            out.add(n["id"])
+        for key in ("steps", "branches", "acts", "setup"):
+            for s in n.get(key, []) or []:
+                walk(s)
+        for c in (n.get("catches", []) or []) + (n.get("timeout", []) or []):
+            for s in c.get("steps", []) or []:
+                walk(s)
+
+    walk(model)
+    return out
 
 
 def normalise(out):
@@ -96,4 +118,20 @@ def normalise(out):
         mm["_seq"] = i
         msgs.append(mm)
     evs = [(e["kind"], dict(pid=e["pid"], state=STATE_MAP.get(e["state"], e["state"]), outputs=e.get("outputs"), inputs=e.get("inputs"))) for e in out.get("events", [])]
-    return dict(procs=procs, messages=msgs, events=evs, results=out.get("results", []))
+    snaps = []
+    for sn in out.get("snapshots", []):
+        sp = []
+        for p in sn["procs"]:
+            sp.append(dict(pid=p["pid"], state=STATE_MAP.get(p["state"], p["state"]),
+                           tasks=[dict(pid=p["pid"], tid=t["tid"], nid=t["nid"], kind=t["type"].capitalize(), state=STATE_MAP.get(t["state"], t["state"]),
+                                       prev=t["prev"], data=t.get("data") or {}, start_time=t.get("start_time", 0), end_time=t.get("end_time", 0),
+                                       timestamp=t.get("timestamp", 0)) for t in p["tasks"]]))
+        snaps.append(dict(procs=sp, nmsg=sn["nmsg"], nevents=sn["nevents"], ntrace=sn.get("ntrace", 0)))
+    kinds = {}
+    for p in procs:
+        for t in p["tasks"]:
+            kinds[t["tid"]] = t["kind"]
+    trace = [dict(pid=e["pid"], tid=e["tid"], how=e["how"], old=STATE_MAP.get(e["old"], e["old"]), new=STATE_MAP.get(e["new"], e["new"]),
+                  kind=kinds.get(e["tid"], "?")) for e in out.get("trace", [])]
+    return dict(procs=procs, messages=msgs, events=evs, results=out.get("results", []), trace=trace, live=out.get("live", []),
+                stored_messages=out.get("stored_messages", []), snapshots=snaps)
